@@ -1,7 +1,7 @@
 (* C04 - no client input can crash the handler or make it allocate unboundedly.
    Pinned statements. *)
 From Passage Require Import Lib.Bytes Codec.VarInt Codec.Desc Codec.NoPanic Gen.PacketsGen Conn.Types Conn.Prog
-  Conn.Sem1 Conn.Monitor Conn.MonitorProofs Conn.Order Conn.OrderProofs Conn.Reader Conn.ReaderProofs.
+  Conn.Sem1 Conn.Sem2 Conn.Monitor Conn.MonitorProofs Conn.Monitor2Proofs Conn.Order Conn.OrderProofs Conn.Reader Conn.ReaderProofs.
 
 (* the decoders never reach a panic, for every description and every byte string *)
 Theorem C04_decoder_no_panic : forall vi vl ds bs, dec vi vl ds bs <> Er EPanic.
@@ -15,6 +15,20 @@ Theorem C04_handler_no_panic : forall o cfg e ib pre post,
 Proof.
   intros o cfg e ib pre post H.
   destruct (accepted_event_checked chk_true _ pre (TEnd (OErr KPanic)) post (order_accepts o cfg e ib) H)
+    as (st & _ & [Hi | (q' & Hd & _)]).
+  - unfold internal_at, internal in Hi. rewrite !andb_false_r in Hi. discriminate.
+  - cbn in Hd. discriminate.
+Qed.
+
+(* the same at byte level (M2): for every timed byte stream, every segmentation, every
+   placement of ticks and adapter completions - dropped frames included *)
+Theorem C04_handler_no_panic_bytes : forall o cfg e segs pre post,
+  untime (run2 o cfg e segs) <> pre ++ TEnd (OErr KPanic) :: post.
+Proof.
+  intros o cfg e segs pre post H.
+  assert (Hok : ok step_order m_init (untime (run2 o cfg e segs)))
+    by (unfold run2; apply safe_sound2; apply listen_order_safe).
+  destruct (accepted_event_checked chk_true _ pre (TEnd (OErr KPanic)) post Hok H)
     as (st & _ & [Hi | (q' & Hd & _)]).
   - unfold internal_at, internal in Hi. rewrite !andb_false_r in Hi. discriminate.
   - cbn in Hd. discriminate.
@@ -46,3 +60,4 @@ Print Assumptions C04_length_checked_first.
 Print Assumptions C04_refused_reads_nothing.
 Print Assumptions C04_buffer_bounded.
 Print Assumptions C04_eof_ends_expect.
+Print Assumptions C04_handler_no_panic_bytes.
